@@ -18,8 +18,9 @@ def main():
     prop = args.prop.upper()
     try:
         mod = importlib.import_module(f'harness.props.{prop.lower()}')
-    except ImportError as e:
-        print(f'no check for {prop}: {e}', file=sys.stderr)
+    except Exception as e:
+        traceback.print_exc()
+        print(f'cannot load check for {prop}: {e}', file=sys.stderr)
         return 2
     ctx = core.Ctx(prop, 'thorough' if args.tier == 'thorough' else 'quick', seed)
     try:
